@@ -75,6 +75,12 @@ func c18(c *Ctx) {
 			if base == nil || idx == nil {
 				return true
 			}
+			// the index, possibly held in a local with a single definition (last := len(x) - 1)
+			if id, isID := unparen(idx).(*ast.Ident); isID {
+				if def := px.FG(f).LocalDef(info.Uses[id]); def != nil {
+					idx = def
+				}
+			}
 			be, ok := unparen(idx).(*ast.BinaryExpr)
 			if !ok || be.Op != token.SUB {
 				return true
@@ -330,7 +336,8 @@ func c18(c *Ctx) {
 			return true
 		})
 		cs := map[types.Object]bool{counterSfx: true}
-		trim := match(func(n ast.Node) bool {
+		// the trim: strings.TrimSuffix(·, counterSuffix) here or in a helper of the package called from here
+		trim, _ := px.effectNodes(fn, func(n ast.Node) bool {
 			call, ok := n.(*ast.CallExpr)
 			return ok && isCallTo(info, call, "strings.TrimSuffix") && len(call.Args) == 2 && mentions(call.Args[1], cs)
 		})
@@ -346,7 +353,27 @@ func c18(c *Ctx) {
 			return isField(info, be.X, fNS) && len(as.Lhs) == 1 && sameVar(info, as.Lhs[0], objOf(info, be.Y))
 		})
 		// an append step: name += X or name = name + X
+		// the name variable: what the function returns (by identifier) or concatenates onto in its returns
+		concatHead := func(e ast.Expr) ast.Expr {
+			first := e
+			for {
+				b2, ok := unparen(first).(*ast.BinaryExpr)
+				if !ok || b2.Op != token.ADD {
+					return unparen(first)
+				}
+				first = b2.X
+			}
+		}
 		appendOf := func(n ast.Node, objs map[types.Object]bool) bool {
+			// return name + "_" + X
+			if rs, ok := n.(*ast.ReturnStmt); ok && len(rs.Results) == 1 {
+				if be, isBin := unparen(rs.Results[0]).(*ast.BinaryExpr); isBin && be.Op == token.ADD {
+					if _, isID := concatHead(be).(*ast.Ident); isID && mentions(be, objs) {
+						return true
+					}
+				}
+				return false
+			}
 			as, ok := n.(*ast.AssignStmt)
 			if !ok || len(as.Lhs) != 1 || len(as.Rhs) != 1 {
 				return false
@@ -484,6 +511,76 @@ func c18(c *Ctx) {
 				}
 			}
 			c.Check(good, "R4", "prometheus|unitSuffixes|core UCUM → Prometheus unit words", at(px.M, fn.Pos()), itoa(len(got))+" entries", "unit suffix table changed for a core unit")
+		}
+	}
+
+	c.Rule("R6", "E5 ownership", "a buffer taken from a sync.Pool on the scrape path goes back at most once per Get (a second Put hands the same buffer to two later scrapes, which then rewrite each other's data)", 1)
+	for _, f := range sortedFuncs(px.Funcs) {
+		// per variable obtained from pool.Get(): the Put sites (deferred or not)
+		got := map[types.Object]bool{}
+		inspectNoLit(f.Body(), func(n ast.Node) bool {
+			as, ok := n.(*ast.AssignStmt)
+			if !ok || len(as.Rhs) != 1 || len(as.Lhs) < 1 {
+				return true
+			}
+			r := unparen(as.Rhs[0])
+			if ta, ok := r.(*ast.TypeAssertExpr); ok {
+				r = unparen(ta.X)
+			}
+			if call, ok := r.(*ast.CallExpr); ok && isCallTo(info, call, "(*sync.Pool).Get") {
+				if o := objOf(info, as.Lhs[0]); o != nil {
+					got[o] = true
+				}
+			}
+			return true
+		})
+		if len(got) == 0 {
+			continue
+		}
+		g := px.FG(f)
+		for o := range got {
+			var deferred, direct []*GNode
+			for _, x := range g.Nodes {
+				if x.N == nil {
+					continue
+				}
+				_, isDefer := x.N.(*ast.DeferStmt)
+				inspectNoLit(x.N, func(n ast.Node) bool {
+					if call, ok := n.(*ast.CallExpr); ok && isCallTo(info, call, "(*sync.Pool).Put") && len(call.Args) == 1 && sameVar(info, call.Args[0], o) {
+						if isDefer {
+							deferred = append(deferred, x)
+						} else {
+							direct = append(direct, x)
+						}
+					}
+					return true
+				})
+			}
+			bad := ""
+			// a deferred Put runs on every exit after it: any direct Put reachable after the defer is a second one
+			for _, d := range deferred {
+				after, _ := g.Reach([]*GNode{d}, nil, nil)
+				for _, p := range direct {
+					if after[p] {
+						bad = "Put at " + px.M.posStr(p.N.Pos()) + " and again by the deferred Put of " + px.M.posStr(d.N.Pos())
+					}
+				}
+			}
+			// two direct Puts on one path
+			for _, p := range direct {
+				after, _ := g.Reach([]*GNode{p}, nil, nil)
+				for _, q := range direct {
+					if after[q] {
+						bad = "Put at " + px.M.posStr(p.N.Pos()) + " and again at " + px.M.posStr(q.N.Pos())
+					}
+				}
+			}
+			if len(deferred) > 1 {
+				bad = "two deferred Puts of the same buffer"
+			}
+			c.Analysed(f)
+			c.Check(bad == "", "R6", "prometheus|"+f.Name+"|"+o.Name()+" returned to its pool at most once", at(px.M, f.Pos()), itoa(len(deferred))+" deferred, "+itoa(len(direct))+" direct Put(s), never two on one path",
+				"the pooled buffer is put back twice on some path ("+bad+"): two later, overlapping scrapes receive the same buffer and one rewrites it while the other is still converting it (data race, wrong series exposed)")
 		}
 	}
 
